@@ -23,8 +23,9 @@ def run(rep, facts):
 
     # ---- R13.1 ------------------------------------------------------------------------------------------
     sites = F.aggregates_of(facts, TOKEN)
-    if len(sites) != 1:
-        rep.violation("R13.1", "token-construction-sites", "Token is constructed at %d sites, expected 1" % len(sites))
+    if not sites:
+        rep.violation("R13.1", "token-construction-sites", "Token is constructed nowhere")
+    multi = len(sites) > 1      # (e.g. a non-blocking `try_get_token` beside `get_token`: every site is held to the same provenance rule)
     for (b0, bi, si, st) in sites:
         # a private constructor that is new relative to the pinned tree is looked through: the values are resolved in, and
         # the suspension rule applies to, the function calling it
@@ -48,60 +49,75 @@ def run(rep, facts):
         fields = dict(zip(rv["fields"], rv["ops"]))
         loc = "%s:%d" % (st["sp"]["f"], st["sp"]["l"])
         want = {
-            "_sg": ("async_lock::Semaphore::acquire_arc", "sema"),
-            "_tt": ("async_io::util::WaitGroup::add_task", "wg"),
-            "stop_fut": ("event_listener::Event::listen", "stop"),
+            "_sg": (("async_lock::Semaphore::acquire_arc", "async_lock::Semaphore::try_acquire_arc"), "sema"),
+            "_tt": (("async_io::util::WaitGroup::add_task",), "wg"),
+            "stop_fut": (("event_listener::Event::listen",), "stop"),
         }
-        for fname, (callee, srcfield) in want.items():
+        sfx = "@" + b.npath.split("::{closure")[0].split("::")[-1] if multi else ""
+        permit_via = None
+        for fname, (callees, srcfield) in want.items():
+            callee = callees[0]
             if fname not in fields:
                 rep.undecidable("R13.1", "token-field[%s]" % fname, "Token has no field %s" % fname, loc)
                 continue
             e = g.resolve(fr, fields[fname], (bi, si))
-            calls = [x for x in ir.walk(e) if x[0] == 'call' and x[1] == callee]
+            calls = [x for x in ir.walk(e) if x[0] == 'call' and x[1] in callees]
             ok = False
             for c in calls:
                 a0 = ir.peel(c[2][0]) if c[2] else None
                 if a0 is not None and a0[0] == 'field' and a0[2] == srcfield:
                     ok = True
-            # the value must be the call result itself (modulo await plumbing), not something merely computed from it
+                    if fname == "_sg":
+                        permit_via = c[1].split("::")[-1]
+            # the value must be the call result itself (modulo await / `?` plumbing), not something merely computed from it
             top = ir.peel(e)
-            while top[0] in ('field', 'variant'):
-                top = ir.peel(top[1])
+            while True:
+                if top[0] in ('field', 'variant'):
+                    top = ir.peel(top[1])
+                elif top[0] == 'call' and top[1].endswith("std::ops::Try>::branch") and top[2]:
+                    top = ir.peel(top[2][0])        # `try_acquire_arc()?`: the Some payload
+                else:
+                    break
             if top[0] == 'call' and top[1].endswith("Future>::poll") and top[2]:
                 ok = ok and True
-            elif top[0] == 'call' and top[1] == callee:
+            elif top[0] == 'call' and top[1] in callees:
                 ok = ok and True
             else:
                 ok = False
             if ok:
-                rep.ok("R13.1", "token-field[%s]" % fname, "%s <- %s(self.%s)" % (fname, callee.split("::")[-1], srcfield), loc)
+                rep.ok("R13.1", "token-field[%s]%s" % (fname, sfx), "%s <- %s(self.%s)" % (fname, (permit_via if fname == "_sg" and permit_via else callee.split("::")[-1]), srcfield), loc)
             else:
-                rep.violation("R13.1", "token-field[%s]" % fname, "Token.%s is %s; expected the result of %s on self.%s" % (fname, ir.show(e)[:120], callee, srcfield), loc)
+                rep.violation("R13.1", "token-field[%s]%s" % (fname, sfx), "Token.%s is %s; expected the result of %s on self.%s" % (fname, ir.show(e)[:120], " / ".join(c_.split("::")[-1] for c_ in callees), srcfield), loc)
         # suspension points of the enclosing coroutine
         if b.is_coroutine:
             ys = [(i, blk["t"]) for i, blk in enumerate(b.blocks) if blk["t"]["k"] == "yield"]
             polls = [(i, blk["t"]) for i, blk in enumerate(b.blocks) if ieg.is_await_poll(blk["t"])]
             tys = [p[1]["func"]["args"][0]["s"] for p in polls]
             if len(ys) == 1 and len(polls) == 1 and "AcquireArc" in tys[0]:
-                rep.ok("R13.1", "get-token-suspends-once", "single suspension point, on %s" % tys[0], b.loc())
+                rep.ok("R13.1", "get-token-suspends-once" + sfx, "single suspension point, on %s" % tys[0], b.loc())
             else:
-                rep.violation("R13.1", "get-token-suspends-once", "token creation has %d suspension points awaiting %s; expected only the permit acquisition" % (len(ys), tys), b.loc())
+                rep.violation("R13.1", "get-token-suspends-once" + sfx, "token creation has %d suspension points awaiting %s; expected only the permit acquisition" % (len(ys), tys), b.loc())
+        elif permit_via == "try_acquire_arc":
+            rep.ok("R13.1", "get-token-suspends-once" + sfx, "not an async fn: the permit is taken with try_acquire_arc, nothing can suspend", b.loc())
         else:
-            rep.violation("R13.1", "get-token-suspends-once", "Token is constructed outside an async fn", b.loc())
+            rep.violation("R13.1", "get-token-suspends-once" + sfx, "Token is constructed outside an async fn without try_acquire_arc", b.loc())
 
     # ---- R13.2 ------------------------------------------------------------------------------------------
     news = F.calls_to(facts, lambda n: n == "async_lock::Semaphore::new")
-    if len(news) != 1:
-        rep.violation("R13.2", "semaphore-new-sites", "Semaphore::new is called at %d sites, expected 1" % len(news))
+    if not news:
+        rep.violation("R13.2", "semaphore-new-sites", "Semaphore::new is called nowhere")
+    # (several constructors of a fresh runner -- `async_runner`, `impl From<Arc<Config>>` -- may each create one: every site is held
+    #  to the sizing rule here and to the who-may-create rule at the Runner construction sites below)
     for (b, bi, t, name) in news:
         r = ir.Resolver(b)
         a = ir.peel(r.operand(t["args"][0], (bi, -1)))
         loc = "%s:%d" % (t["sp"]["f"], t["sp"]["l"])
         ok = a[0] == 'call' and a[1].endswith("::get") and a[2] and ir.peel(a[2][0])[0] == 'field' and ir.peel(a[2][0])[2] == 'max_conns'
+        ksfx = "" if len(news) == 1 else "[%s]" % b.npath
         if ok:
-            rep.ok("R13.2", "semaphore-size", "Semaphore::new(config.max_conns.get())", loc)
+            rep.ok("R13.2", "semaphore-size" + ksfx, "Semaphore::new(config.max_conns.get())", loc)
         else:
-            rep.violation("R13.2", "semaphore-size", "semaphore is sized by %s, expected config.max_conns.get()" % ir.show(a)[:100], loc)
+            rep.violation("R13.2", "semaphore-size" + ksfx, "semaphore is sized by %s, expected config.max_conns.get()" % ir.show(a)[:100], loc)
     # the semaphore may sit in Runner itself or in a private struct nested in it (`shared: RunnerShared { config, sema }`): every type
     # that (transitively) holds the Arc<Semaphore> is held to the same rule at each of its construction sites
     def fields_of(adt):
@@ -146,7 +162,13 @@ def run(rep, facts):
                     kind = "clone of self.%s" % fname
             if how == 'direct':
                 if e[0] == 'call' and e[1] == "async_lock::Semaphore::new" and not in_clone:
-                    kind = "the one Semaphore::new"     # a clone must share, never create (also when both go through one private constructor)
+                    kind = "a fresh Semaphore::new"     # a clone must share, never create (also when both go through one private constructor)
+                    # ... and it is sized from the very configuration this runner stores
+                    cfg_e = ir.peel(fields["config"]) if "config" in fields else None
+                    if cfg_e is not None and e[2] and not any(ir.peel(x) == cfg_e for x in ir.walk(e[2][0])):
+                        roots = lambda z: {(y[0], y[1]) for y in ir.walk(z) if y[0] == 'param'}
+                        if not (roots(cfg_e) and roots(cfg_e) == roots(e[2][0])):
+                            kind = None
             else:
                 # the nested holder: built right here (its own site is checked), or moved in
                 if e[0] == 'agg' and e[1] == 'adt' and e[2].rsplit("::", 1)[0] == how and not in_clone:
